@@ -136,12 +136,11 @@ def rule_wired(ctx: Ctx) -> None:  # noqa: C901, PLR0912, PLR0915
                 key=f"{entry.name} -> {val_q.rsplit('.', 1)[-1]}", path=cfg.describe(wp, entry.module.relpath) if wp else None)
     for q in RAISING:
         f = P.func(q)
-        raises = [r for r in ast.walk(f.node) if isinstance(r, ast.Raise)]
-        cfg = ctx.cfg(f)
-        from ..cfg import RAISE
+        from ..flow import reach_rejections
 
-        ok = bool(raises) and RAISE in cfg.reachable_from(ENTRY)
-        ctx.add("1-wired", f, raises[0] if raises else f.node, ok, f"{f.name} can reject ({len(raises)} raise site(s))" if ok else f"{f.name} can no longer raise", key=f"raises {f.name}")
+        raises = reach_rejections(ctx, f, depth=4)  # live raise sites of the function and of what it calls in its module
+        ok = bool(raises)
+        ctx.add("1-wired", f, raises[0]["node"] if raises else f.node, ok, f"{f.name} can reject ({len(raises)} raise site(s))" if ok else f"{f.name} can no longer raise", key=f"raises {f.name}")
     for a, b, why in REACH:
         ok = b in cg.reachable(a)
         ctx.add("1-wired", a, P.func(a).loc, ok, f"{why}: {a.rsplit('.', 1)[-1]} reaches {b.rsplit('.', 1)[-1]}" if ok else f"{why}: {a.rsplit('.', 1)[-1]} no longer reaches {b.rsplit('.', 1)[-1]}", key=f"reach {a.rsplit('.', 1)[-1]}->{b.rsplit('.', 1)[-1]}")
